@@ -16,6 +16,8 @@ def get_content_gz_file(gz_path):
 def yield_contents_zip_dir(zip_path):
     with ZipFile(zip_path, 'r') as zip:
         for a_file_path in zip.filelist:
+            if a_file_path.is_dir():
+                continue  # Folder entries are not files to parse
             with zip.open(a_file_path) as in_file:
                 yield in_file.read()
 
@@ -24,4 +26,5 @@ def get_content_zip_internal_file(base_archive, target_file):
         return in_file.read()
 
 def list_of_zip_internal_files(zip_base_archive):
-    return zip_base_archive.namelist()
+    # Folder entries ("dump/") are not files to parse
+    return [a_name for a_name in zip_base_archive.namelist() if not a_name.endswith("/")]
